@@ -42,7 +42,7 @@ func parseInst(s string) (inst, bool) {
 
 type counts struct {
 	prov, clean, started, stop int
-	cleanAt, lastStopAt       int // global event positions (for "not earlier than")
+	cleanAt, lastStopAt        int // global event positions (for "not earlier than")
 }
 
 // Oracle evaluates the property on what the probes and pool snapshots reported:
@@ -72,11 +72,10 @@ func (flavor) Oracle(ops []lc.Op, obs []lc.StepObs) []core.Failure {
 	var running *lc.Cfg
 	runningCid := -1
 	pos := 0
-	opened := map[int]int{}   // probe writer key → OpenWriter calls
-	closed := map[int]int{}   // probe writer key → Close calls
-	everUsed := map[int]int{} // writer key (0 = stderr) → number of contexts that opened it and got that far
-	leaked := map[int][]int{} // sockets C01's finding F2 accounts for
-	stolen := map[int]int{}   // hosts key → references released by early-failing reverse proxies (F20)
+	opened := map[int]int{}    // probe writer key → OpenWriter calls
+	closed := map[int]int{}    // probe writer key → Close calls
+	everUsed := map[int]int{}  // writer key (0 = stderr) → number of contexts that opened it and got that far
+	leaked := map[int][]int{}  // sockets C01's finding F2 accounts for
 	cfgOf := map[int]*lc.Cfg{} // context number → the configuration it was created for
 	postOf := map[int]bool{}
 	for i, o := range obs {
@@ -181,12 +180,6 @@ func (flavor) Oracle(ops []lc.Op, obs []lc.StepObs) []core.Failure {
 					everUsed[l.Key]++
 				}
 			}
-			// F20 bookkeeping: a reverse proxy of this attempt failed early
-			if strings.HasPrefix(o.Res, "err:") {
-				if k, ok := earlyRpFailure(c, op.Env.PP); ok && o.Res == "err:provision" {
-					stolen[k]++
-				}
-			}
 		}
 		wantM := [lc.NAddr]int{}
 		wantW := [lc.NAddr]int{}
@@ -203,10 +196,7 @@ func (flavor) Oracle(ops []lc.Op, obs []lc.StepObs) []core.Failure {
 		}
 		for k := 0; k < lc.NAddr; k++ {
 			if o.MPool[k] != wantM[k] {
-				if k >= 4 && stolen[k] > 0 && o.MPool[k] < wantM[k] && o.MPool[k] >= wantM[k]-stolen[k] {
-					add("reverse-proxy-early-provision-failure-releases-hosts-it-never-took",
-						fmt.Sprintf("op %d (%s → %s): hosts pool entry %d has %d references, the running configuration has %d reverse proxies using it; %d reference(s) were released by Cleanup of a reverse_proxy whose Provision failed before it set up its upstreams", i, op, o.Res, k, o.MPool[k], wantM[k], stolen[k]))
-				} else {
+				{
 					add("pool-references-not-a-function-of-running-config",
 						fmt.Sprintf("op %d (%s → %s): pool entry %d has %d references, the running configuration holds %d", i, op, o.Res, k, o.MPool[k], wantM[k]))
 				}
@@ -284,38 +274,3 @@ func setupFailed(c *lc.Cfg, post bool, in inst) bool {
 	}
 	return false
 }
-
-// earlyRpFailure: does provisioning of c, in app order pp, end at a reverse proxy whose Provision
-// fails early (fault 3)? Returns its hosts key. Only the HTTP app has reverse proxies, so this is
-// "the first faulty guest of the HTTP app is such a reverse proxy, and no app provisioned before
-// the HTTP app fails".
-func earlyRpFailure(c *lc.Cfg, pp []int) (int, bool) {
-	for _, a := range lc.Order(pp, c.Apps) {
-		if !a.IsHTTP() {
-			if a.Fault >= 1 && a.Fault <= 4 {
-				return 0, false
-			}
-			for _, m := range a.Mods {
-				if m.Fault != 0 {
-					return 0, false
-				}
-			}
-			continue
-		}
-		if a.Fault == 2 {
-			return 0, false
-		}
-		for _, m := range a.Mods {
-			if m.Fault == 0 {
-				continue
-			}
-			if m.IsRp() && m.Fault == 3 {
-				return m.Key, true
-			}
-			return 0, false
-		}
-		return 0, false
-	}
-	return 0, false
-}
-
